@@ -27,15 +27,30 @@ func (x Expr) BracketString() string {
 // the expanded buffer.
 func (x Expr) Append(buf []byte, brackets ...bool) []byte {
 	bracket := 0 < len(brackets) && brackets[0]
+	lastBracketed := false
 	for i, frag := range x {
 		if _, ok := frag.(Bracket); ok {
 			bracket = true
 			continue
 		}
 		start := len(buf)
+		if d, ok := frag.(Descent); ok && 0 < i && !bracket {
+			if _, ok = x[i-1].(Descent); ok {
+				// A descent right after a descent is only distinguishable in
+				// the bracket form. The previous one is either "[..]" already
+				// or a single '.' that has to become "..".
+				if buf[len(buf)-1] == '.' && (len(buf) < 2 || buf[len(buf)-2] != '.') {
+					buf = append(buf, '.')
+				}
+				buf = d.Append(buf, true, false)
+				lastBracketed = true
+				continue
+			}
+		}
+		lastBracketed = false
 		buf = frag.Append(buf, bracket, i == 0)
 		if 0 < i && !bracket && start < len(buf) && buf[start] != '.' {
-			if _, ok := x[i-1].(Descent); ok {
+			if _, ok := x[i-1].(Descent); ok && (buf[start-1] == '.' && (start < 2 || buf[start-2] != '.')) {
 				// The fragment did not start with a '.' of its own so
 				// the descent has to be written as "..".
 				buf = append(buf, 0)
@@ -45,7 +60,7 @@ func (x Expr) Append(buf []byte, brackets ...bool) []byte {
 		}
 	}
 	if 0 < len(x) {
-		if _, ok := x[len(x)-1].(Descent); ok && !bracket { // "[..]" is already complete
+		if _, ok := x[len(x)-1].(Descent); ok && !bracket && !lastBracketed { // "[..]" is already complete
 			buf = append(buf, '.')
 		}
 	}
